@@ -23,7 +23,7 @@ fn spec(t: Tier) -> Spec {
     Spec {
         id: "C12",
         level: "exploration",
-        rule: format!("pattern = sequence of atoms from {:?} (literals incl. regex metacharacters, * ?, backslash escapes, well-formed bracket expressions with negation/range/class/leading ]/escaped ]/inner [, stray [ ] !); subject = every non-empty string of <= k characters over {:?}. -lname: one directory of symbolic links whose targets are all the subjects; -name: files named by the '/'-free subjects; -path: the same files, pattern prefixed by the literal directory; -ilname/-iname/-ipath with case folding. Slices: {}. For each (pattern, subject) the real find's selection must equal fnmatch(): glibc fnmatch(3) (C locale, flags 0 / FNM_CASEFOLD) and the reference matcher written from the statement must agree, otherwise the pair is counted as oracle-undecided and not judged. evaluation = (primary, pattern, subject); non-trivial = pattern containing a special atom (not only literals)", ATOMS, SUBJ.iter().map(|c| (*c as char).to_string()).collect::<Vec<_>>(), t.pick("-lname atoms<=3 x k<=3 and 12-atom sub-alphabet<=3 x k<=3; other primaries atoms<=2 x k<=3", "-lname atoms<=4 x k<=3, atoms<=3 x k<=4, sub-alphabet<=5 x k<=3; other five primaries atoms<=3 x k<=3")),
+        rule: format!("pattern = sequence of atoms from {:?} (literals incl. regex metacharacters, * ?, backslash escapes, well-formed bracket expressions with negation/range/class/leading ]/escaped ]/inner [, stray [ ] !); subject = every non-empty string of <= k characters over {:?}. -lname: one directory of symbolic links whose targets are all the subjects; -name: files named by the '/'-free subjects; -path: the same files, pattern prefixed by the literal directory; -ilname/-iname/-ipath with case folding. Slices: {}; plus every pattern of <= 2 atoms given to -iname and to -name in the same expression. For each (pattern, subject) the real find's selection must equal fnmatch(): glibc fnmatch(3) (C locale, flags 0 / FNM_CASEFOLD) and the reference matcher written from the statement must agree, otherwise the pair is counted as oracle-undecided and not judged. evaluation = (primary, pattern, subject); non-trivial = pattern containing a special atom (not only literals)", ATOMS, SUBJ.iter().map(|c| (*c as char).to_string()).collect::<Vec<_>>(), t.pick("-lname atoms<=3 x k<=3 and 12-atom sub-alphabet<=3 x k<=3; other primaries atoms<=2 x k<=3", "-lname atoms<=4 x k<=3, atoms<=3 x k<=4, sub-alphabet<=5 x k<=3; other five primaries atoms<=3 x k<=3")),
         bound: json!({"atoms": ATOMS.len(), "sub_atoms": SUB_ATOMS.len(), "subject_alphabet": SUBJ.len()}),
         assumptions: vec![
             "ASCII only (glibc's C locale is bytewise)".into(),
@@ -357,6 +357,25 @@ fn slices(t: Tier) -> Vec<(Mode, Vec<String>, usize)> {
 fn run(ctx: &mut Ctx) {
     let mut job = 0u64;
     let mut world: Option<World> = None;
+    // mixed slice first (patterns of <= 2 atoms, subjects <= 2|3)
+    {
+        let k = ctx.tier.pick(2, 3);
+        match build(ctx, k) {
+            Ok(w) => {
+                for batch in patterns(&ATOMS, 2).chunks(32) {
+                    job += 1;
+                    if ctx.mine(job) {
+                        mixed_batch(ctx, &w, batch);
+                    }
+                }
+                world = Some(w);
+            }
+            Err(e) => {
+                ctx.rep.machinery(format!("sandbox: {e}"));
+                return;
+            }
+        }
+    }
     for (mode, pats, k) in slices(ctx.tier) {
         if world.as_ref().map(|w| w.k) != Some(k) {
             world = match build(ctx, k) {
@@ -385,6 +404,62 @@ fn run(ctx: &mut Ctx) {
     }
 }
 
+/// Both case sensitivities of the same pattern text in ONE invocation (state shared between
+/// primaries, e.g. a cache of compiled patterns, must not leak one's flags into the other).
+fn mixed_batch(ctx: &mut Ctx, w: &World, pats: &[String]) {
+    let mut argv: Vec<String> = vec!["N".into(), "-mindepth".into(), "1".into(), "(".into()];
+    for (k, p) in pats.iter().enumerate() {
+        for (j, prim) in ["-iname", "-name"].iter().enumerate() {
+            if k + j > 0 {
+                argv.push(",".into());
+            }
+            argv.extend([prim.to_string(), p.clone(), "-printf".to_string(), format!("L{} %i\\n", 2 * k + j)]);
+        }
+    }
+    argv.push(")".into());
+    let args: Vec<&str> = argv.iter().map(|s| s.as_str()).collect();
+    let out = run_find(&args);
+    if out.code != Ok(0) {
+        return; // rejected patterns are judged by the per-primary slices
+    }
+    let mut sel: Vec<BTreeSet<usize>> = vec![BTreeSet::new(); 2 * pats.len()];
+    for line in String::from_utf8_lossy(&out.out).split_terminator('\n') {
+        if let Some((l, i)) = line.split_once(' ') {
+            if let (Some(k), Some(idx)) = (l.strip_prefix('L').and_then(|x| x.parse::<usize>().ok()), i.parse::<u64>().ok().and_then(|i| w.n_ino.get(&i))) {
+                if k < sel.len() {
+                    sel[k].insert(*idx);
+                }
+            }
+        }
+    }
+    for (k, p) in pats.iter().enumerate() {
+        let Ok(parsed) = g::parse(p.as_bytes()) else { continue };
+        // (a backslash inside a bracket is the known finding of the per-primary slices)
+        if g::has_class(&parsed) || feature(p) == "backslash inside bracket" {
+            continue;
+        }
+        let pc = CString::new(p.clone()).unwrap();
+        for (si, s) in w.n_subj.iter().enumerate() {
+            for (j, fold) in [(0usize, true), (1, false)] {
+                let r = g::matches(&parsed, s, fold);
+                if g::libc_fnmatch(&pc, &w.n_c[si], fold) != Some(r) {
+                    continue;
+                }
+                ctx.rep.evaluations += 1;
+                ctx.rep.nontrivial += 1;
+                let got = sel[2 * k + j].contains(&si);
+                if got != r {
+                    ctx.rep.violation(
+                        &format!("C12 {} wrong when -iname and -name carry the same pattern in one expression", if fold { "-iname" } else { "-name" }),
+                        format!("find N ( -iname {p:?} -printf .. , -name {p:?} -printf .. ): subject {:?}: {} says {got}, fnmatch says {r}", show(s), if fold { "-iname" } else { "-name" }),
+                        json!({"prop":"C12","mode":"mixed","pattern":p,"subject":show(s),"k":w.k}),
+                    );
+                }
+            }
+        }
+    }
+}
+
 fn xok_take() -> u64 {
     XOK.with(|x| x.replace(0))
 }
@@ -392,7 +467,11 @@ fn xok_take() -> u64 {
 fn replay(case: &Value, ctx: &mut Ctx) -> Option<String> {
     let k = case["k"].as_u64()? as usize;
     let w = build(ctx, k).ok()?;
-    let mode = Mode::from(case["mode"].as_str()?)?;
+    let mode = Mode::from(case["mode"].as_str()?).unwrap_or(Mode::Name);
+    if case["mode"] == "mixed" {
+        mixed_batch(ctx, &w, &[case["pattern"].as_str()?.to_string()]);
+        return ctx.rep.violations.keys().next().cloned();
+    }
     judge_batch(ctx, &w, mode, &[case["pattern"].as_str()?.to_string()]);
     ctx.rep.violations.keys().next().cloned()
 }
